@@ -366,7 +366,7 @@ check:
 		}
 
 		root := RootNode(t.Parent)
-		resolvedBase, baseErr := root.findIdentityBase(t.IdentityBase.Name)
+		resolvedBase, baseErr := root.findIdentityBaseAt(t.IdentityBase.Name, t.IdentityBase)
 		if baseErr != nil {
 			errs = append(errs, baseErr...)
 			break
